@@ -418,7 +418,7 @@ func r3with(p *irjs.Node, g int, emit func(Variant)) {
 			return
 		}
 		n := s.n
-		if isDeclStmt(n) || n.Is("empty") || n.IsNone() {
+		if isDeclStmt(n) || n.Is("empty") || n.IsNone() || s.parent.Is("label") {
 			return
 		}
 		if insideStrictCode(p, s.path) {
@@ -643,7 +643,7 @@ func r6block(p *irjs.Node, g int, emit func(Variant)) {
 		if s.role != rStmt && s.role != rSub {
 			return
 		}
-		if isDeclStmt(s.n) || s.n.IsNone() {
+		if isDeclStmt(s.n) || s.n.IsNone() || s.parent.Is("label") {
 			return
 		}
 		emit(Variant{Prog: replaceAt(p, s.path, irjs.N("block", s.n)), Desc: fmt.Sprintf("@%d", k), Exact: true})
@@ -684,7 +684,7 @@ func r6stmt(p *irjs.Node, g int, emit func(Variant)) {
 			return
 		}
 		n := s.n
-		if isDeclStmt(n) || n.IsNone() || n.Is("empty") {
+		if isDeclStmt(n) || n.IsNone() || n.Is("empty") || s.parent.Is("label") {
 			return
 		}
 		if unsafeToWrapInFunction(n) || usesThisOrArguments(n) {
